@@ -101,6 +101,9 @@ def mypy_expression_to_sds_type(expr: mp_nodes.Expression) -> sds_types.Abstract
         elif expr.name != "None" and isinstance(expr.node, mp_nodes.Var):
             # The name of a variable or parameter is not the name of its type
             return sds_types.UnknownType()
+        elif not expr.fullname:
+            # Mypy could not find out what the name refers to
+            return sds_types.UnknownType()
         else:
             return sds_types.NamedType(name=expr.name, qname=expr.fullname)
     elif isinstance(expr, mp_nodes.IntExpr):
